@@ -44,6 +44,10 @@ def pools(quick):
     P_[P(INT, P(INT, INT))] = [p(i(x), p(i(y), i(z))) for x in (1, 2) for y in (5, 3) for z in (0, 1)]
     P_[OPT(P(INT, STR))] = [none] + [some(p(i(x), s(y))) for x in (1, 2) for y in ('b', 'a')]
     P_[OR(OPT(INT), P(INT, INT))] = [left(none), left(some(i(1))), right(p(i(1), i(5))), right(p(i(2), i(3)))]
+    # unit below a constructor: Some Unit / None, Left Unit / Right Unit differ although unit has a single value
+    P_[OPT(UNIT)] = [none, some(U)]
+    P_[OR(UNIT, UNIT)] = [left(U), right(U)]
+    P_[P(UNIT, OPT(UNIT))] = [p(U, none), p(U, some(U))]
     P_[P(OR(INT, STR), OPT(BOOL))] = [p(x, y) for x in (left(i(1)), right(s('a')), left(i(2))) for y in (none, some(T_), some(F_))]
     return P_
 
